@@ -161,6 +161,8 @@ func classify(err error) string {
 		return "err:index"
 	case strings.Contains(m, "loading new config"):
 		switch {
+		case strings.Contains(m, "probe admin router fault"):
+			return "err:admin"
 		case strings.Contains(m, "app module: start:"):
 			return "err:start"
 		case strings.Contains(m, "loading config loader module"):
@@ -354,6 +356,7 @@ func RunCase(ops []Op, enforce bool) []StepObs {
 		mu.Lock()
 		curOp = i
 		postFail = (op.Kind != 'J' && op.Kind != 'S') && op.Env.Post
+		adminFail = (op.Kind != 'J' && op.Kind != 'S') && op.Env.Adm == 2
 		mu.Unlock()
 		var held []net.Listener
 		for _, a := range op.Env.Blocked {
@@ -368,9 +371,9 @@ func RunCase(ops []Op, enforce bool) []StepObs {
 			c := op.Cfg
 			attempted = &c
 			if op.Env.Force {
-				err = caddy.Load(Render(c), true)
+				err = caddy.Load(Render(c, op.Env.Adm >= 1), true)
 			} else {
-				err = adminErr(adminDo("POST", "/config/", Render(c)))
+				err = adminErr(adminDo("POST", "/config/", Render(c, op.Env.Adm >= 1)))
 			}
 		case 'P':
 			b, _ := json.Marshal(renderApp(op.App))
@@ -383,7 +386,7 @@ func RunCase(ops []Op, enforce bool) []StepObs {
 			err = adminErr(adminDo("POST", "/config/", []byte("{not json")))
 		case 'V':
 			var cfg *caddy.Config
-			err = caddy.StrictUnmarshalJSON(caddy.RemoveMetaFields(Render(op.Cfg)), &cfg)
+			err = caddy.StrictUnmarshalJSON(caddy.RemoveMetaFields(Render(op.Cfg, op.Env.Adm >= 1)), &cfg)
 			if err == nil {
 				err = caddy.Validate(cfg)
 			}
@@ -486,7 +489,7 @@ func orderMatches(op Op, attempted *Cfg, o StepObs) bool {
 	default:
 		return true
 	}
-	return phaseMatches(order(op.Env.PP, apps), o.PP, strings.HasPrefix(o.Res, "err:") && o.Res != "err:start" && o.Res != "err:post", true) &&
+	return phaseMatches(order(op.Env.PP, apps), o.PP, strings.HasPrefix(o.Res, "err:") && o.Res != "err:start" && o.Res != "err:post" && o.Res != "err:admin", true) &&
 		phaseMatches(order(op.Env.PS, apps), o.PS, o.Res == "err:start", false)
 }
 
